@@ -288,6 +288,62 @@ def h_finer(ctx, which, njumps):
     ctx.prove("C15.maxstep.values_kept_and_inserted_points_repeat_predecessor", AND(*ok_terms), info=info, replay=rp)
 
 
+def replay_finer_nd(sc):
+    jt = np.array(sc["jt"], dtype=float)
+    jv = np.array(sc["jv"], dtype=float)  # shape (d, n)
+    eps, T = sc["eps"], sc["T"]
+    f = LP.SimulationMaximumStep.create_build_finer_grid_fun(epsilon=eps, maturity=T)
+    t2, v2 = f(None, jt.copy(), jv.copy())
+    t2, v2 = np.asarray(t2, dtype=float), np.asarray(v2, dtype=float)
+    bad = []
+    if v2.shape != (jv.shape[0], len(t2)):
+        bad.append(f"values have shape {v2.shape} for {len(t2)} times")
+    else:
+        for i, t in enumerate(t2):
+            k = int(np.searchsorted(jt, t + 1e-12, side="right")) - 1
+            want = jv[:, k] if k >= 0 else np.zeros(jv.shape[0])
+            if not np.allclose(v2[:, i], want, atol=1e-12):
+                bad.append(f"at t={t!r} the components are {v2[:, i].tolist()}, the piecewise-constant path there is {want.tolist()}")
+    return bool(bad), f"build_finer_grid(eps={eps}, T={T}) on times {jt.tolist()} and component values {jv.tolist()}: " + "; ".join(bad[:3])
+
+
+def h_finer_nd(ctx, njumps, d=2):
+    """jump values with d components (shape (d, n), what the copula chain hands to the refinement): every component of an inserted point
+    repeats that component's preceding value"""
+    eps = ctx.real("eps")
+    ctx.assume(eps > 0)
+    T = ctx.real("T")
+    jt = np.empty(njumps, dtype=object)
+    jv = np.empty((d, njumps), dtype=object)
+    prev = 0.0
+    for i in range(njumps):
+        jt[i] = ctx.real(f"tau{i}")
+        ctx.assume(AND(jt[i] > prev, jt[i] - prev < 3 * eps))
+        prev = jt[i]
+        for c in range(d):
+            jv[c, i] = ctx.real(f"val{c}_{i}")
+    ctx.assume(AND(T >= prev, eps < T))
+    jt0 = list(jt)
+    jv0 = [[jv[c, i] for i in range(njumps)] for c in range(d)]
+    f = LP.SimulationMaximumStep.create_build_finer_grid_fun(epsilon=eps, maturity=T)
+    t2, v2 = f(None, jt, jv)
+    n = len(t2)
+    info = {"jumps": njumps, "points": n, "components": d}
+    rp = (replay_finer_nd, lambda m: {"jt": _vals(m, jt0), "jv": [_vals(m, row) for row in jv0], "eps": m.f(eps), "T": m.f(T)})
+    ctx.prove("C15.maxstep.arrays_aligned", np.shape(v2) == (d, n), info=info, replay=rp)
+    if np.shape(v2) != (d, n):
+        return
+    j = 0
+    prev_v = [0.0] * d
+    ok_terms = []
+    for i in range(n):
+        if j < njumps and bool(EQ(t2[i], jt0[j])):
+            prev_v = [jv0[c][j] for c in range(d)]
+            j += 1
+        ok_terms += [EQ(v2[c, i], prev_v[c]) for c in range(d)]
+    ctx.prove("C15.maxstep.every_component_of_an_inserted_point_repeats_its_own_predecessor", AND(*ok_terms), info=info, replay=rp)
+
+
 def replay_lastgap(sc):
     class M(StubModel):
         def __init__(self):
@@ -360,12 +416,17 @@ def harnesses(tier):
     for which in ("levyprocess", "coupling"):
         for nj in ((1, 2) if q else (1, 2, 3)):
             hs.append(Harness(f"finer.{which}.{nj}", h_finer, {"which": which, "njumps": nj}, max_paths=20000, batch=20))
+    for nj in ((1, 2) if q else (1, 2, 3)):
+        hs.append(Harness(f"finer.2components.{nj}", h_finer_nd, {"njumps": nj}, max_paths=20000, batch=20))
+    from .c03_coupling import h_coupled_jumptimes  # the coupled simulators' path assembly (same harness as C03's, reported here)
+
+    hs.append(Harness("coupled.jumptimes", h_coupled_jumptimes, {"prefix": "C15"}, max_paths=400))
     hs.append(Harness("maxstep.path", h_maxstep_path, max_paths=2000))
     hs.append(Harness("twin", h_twin, twin="must_fail"))
     return hs
 
 
-EXPECT = ["C15.fixed.jump_component_is_running_sum_of_increments", "C15.fixed.diffusion_component_is_running_sum_of_scaled_normals", "C15.jumptimes.times_non_decreasing",
+EXPECT = ["C15.maxstep.every_component_of_an_inserted_point_repeats_its_own_predecessor", "C15.fixed.jump_component_is_running_sum_of_increments", "C15.fixed.diffusion_component_is_running_sum_of_scaled_normals", "C15.jumptimes.times_non_decreasing",
           "C15.jumptimes.jump_component_is_running_sum", "C15.jumptimes.diffusion_component_is_running_sum_of_scaled_normals", "C15.maxstep.every_step_at_most_epsilon",
           "C15.maxstep.values_kept_and_inserted_points_repeat_predecessor", "C15.maxstep.returned_path_respects_the_cap"]
 
